@@ -49,6 +49,7 @@ package main
 import (
 	"fmt"
 	"math"
+	"sort"
 	"strings"
 	"time"
 
@@ -654,10 +655,120 @@ func families(tier string) []mc.Family {
 			Rule:     fmt.Sprintf("item = glyph set (32) x encoding kind (5) x 2 width assignments; every present glyph takes every box of %d (zero, positive, touching the origin from below, straddling, degenerate lines through the origin, single point, negative, fractional) by Choose; non-trivial as above", len(afmBoxes)),
 			Describe: func(i int) string { return fmt.Sprintf("afm geometry item %d", i) }, CrashKey: func(int) string { return "C19:crash:afm/boxes-widths" },
 		},
+		manyGlyphsFamily(budgets[0]),
 		{
 			Name: "funit/rect-union", Items: len(rects) * len(rects), Body: rectBody(rects), Budget: budgets[4],
 			Rule:     "item = first two rectangles, Choose = optional third, all from the 36 well-formed rectangles with coordinates in {-2,0,3}; a zero Rect16/Rect extended by them in turn must be the union of the non-zero ones; non-trivial = at least one non-zero rectangle",
 			Describe: func(i int) string { return fmt.Sprintf("funit item %d", i) }, CrashKey: func(int) string { return "C19:crash:funit/rect-union" },
+		},
+	}
+}
+
+// manyGlyphsFamily: glyph lists longer than the small-slice paths of sort
+// implementations (insertion sort up to 12 elements), with encoded and
+// unencoded glyphs interleaved in every residue pattern.
+func manyGlyphsFamily(budget time.Duration) mc.Family {
+	sizes := []int{11, 12, 13, 14, 20, 33, 64, 100, 300}
+	// encoding patterns: which glyphs (by index in name order) are encoded, and at which codes
+	type pat struct {
+		name string
+		code func(i, n int) int // -1 = not encoded
+	}
+	pats := []pat{
+		{"none encoded", func(i, n int) int { return -1 }},
+		{"every third glyph, descending codes", func(i, n int) int {
+			if i%3 == 0 {
+				return 255 - (i/3)%256
+			}
+			return -1
+		}},
+		{"every second glyph, ascending codes", func(i, n int) int {
+			if i%2 == 1 {
+				return (i / 2) % 256
+			}
+			return -1
+		}},
+		{"the alphabetically last five glyphs", func(i, n int) int {
+			if i >= n-5 {
+				return 100 + (n - i)
+			}
+			return -1
+		}},
+		{"only the middle glyph", func(i, n int) int {
+			if i == n/2 {
+				return 65
+			}
+			return -1
+		}},
+		{"all glyphs, scrambled codes", func(i, n int) int { return (i * 37) % 256 }},
+	}
+	return mc.Family{
+		Name: "glyphlist/many-glyphs", Items: len(sizes) * len(pats) * 2 * 2, Budget: budget,
+		Rule: fmt.Sprintf("item = number of glyphs %v x encoding pattern (none; every third glyph at descending codes; every second at ascending codes; the alphabetically last five; only the middle one; all at scrambled codes) x with/without .notdef x {type1.Font, afm.Metrics}; names are not in insertion order; GlyphList checked against the definition (each glyph once, .notdef first, encoded glyphs in code order, the rest alphabetically, length = NumGlyphs); non-trivial = every case", sizes),
+		Body: func(c *mc.Ctx, item int) mc.Verdict {
+			isAfm := item%2 == 1
+			withNotdef := (item/2)%2 == 1
+			p := pats[(item/4)%len(pats)]
+			n := sizes[item/4/len(pats)]
+			names := make([]string, n)
+			for i := range names {
+				// alphabetical order differs from numeric and from insertion order
+				names[i] = fmt.Sprintf("g%03d%c", (i*7919)%1000, 'a'+rune(i%26))
+			}
+			sort.Strings(names)
+			enc := make([]string, 256)
+			for i := range enc {
+				enc[i] = ".notdef"
+			}
+			present := map[string]bool{}
+			for i, nm := range names {
+				present[nm] = true
+				if code := p.code(i, n); code >= 0 && enc[code] == ".notdef" {
+					enc[code] = nm
+				}
+			}
+			if withNotdef {
+				present[".notdef"] = true
+			}
+			var list []string
+			var count int
+			if isAfm {
+				m := &afm.Metrics{Glyphs: map[string]*afm.GlyphInfo{}, Encoding: enc}
+				// insert in an order unrelated to the names
+				for i := range names {
+					m.Glyphs[names[(i*31)%n]] = &afm.GlyphInfo{WidthX: 500}
+				}
+				for len(m.Glyphs) < n { // (31 and n not coprime)
+					for _, nm := range names {
+						m.Glyphs[nm] = &afm.GlyphInfo{WidthX: 500}
+					}
+				}
+				if withNotdef {
+					m.Glyphs[".notdef"] = &afm.GlyphInfo{WidthX: 250}
+				}
+				list, count = m.GlyphList(), m.NumGlyphs()
+			} else {
+				f := &type1.Font{FontInfo: &type1.FontInfo{}, Private: &type1.PrivateDict{}, Glyphs: map[string]*type1.Glyph{}, Encoding: enc}
+				for _, nm := range names {
+					f.Glyphs[nm] = &type1.Glyph{WidthX: 500}
+				}
+				if withNotdef {
+					f.Glyphs[".notdef"] = &type1.Glyph{WidthX: 250}
+				}
+				list, count = f.GlyphList(), f.NumGlyphs()
+			}
+			c.Step()
+			what := fmt.Sprintf("%d glyphs, %s, .notdef present=%v, %s", n, p.name, withNotdef, map[bool]string{true: "afm.Metrics", false: "type1.Font"}[isAfm])
+			if class, msg := geomref.CheckGlyphList(list, present, enc, count); class != "" {
+				v := mc.Fail("C19:"+map[bool]string{true: "afm", false: "type1"}[isAfm]+".GlyphList:many-glyphs:"+class, what+": "+msg)
+				v.Render = what
+				return v
+			}
+			v := mc.Pass("glyphlist-ok", true)
+			if c.Render() {
+				v.Render = what + fmt.Sprintf(" → %d names, in order", len(list))
+			}
+			return v
 		},
 	}
 }
